@@ -37,7 +37,7 @@ def floors(tier):
 
 def plan(tier, seed):
     if tier == "quick":
-        n, per = 16, 300
+        n, per = 16, 600
     else:
         n, per = 64, 9000
     return [{"seed": seed, "shard": i, "per": per, "tier": tier} for i in range(n)]
